@@ -85,6 +85,15 @@ def run(rep: Report, prog: Program, tier: str) -> None:
             seen.append((node, st.has_guard("in_order", True)))
 
     EventsDomain(prog, lambda n, f: [], observe).run(add)
+    # the counter accumulates: a plain assignment (other than `self.cycles = self.cycles + ...`) loses the earlier wraps
+    for n_ in walk_no_nested(add.node):
+        if isinstance(n_, ast.Assign) and any(unparse(t) == "self.cycles" for t in n_.targets):
+            if "self.cycles" in unparse(n_.value):
+                seen.append((n_, False))
+            else:
+                rep.fail(mk_finding(prog, PROP, "C18-CYCLES", add, n_, f"`{unparse(n_)}` assigns the wrap-cycle counter instead of adding to it: from the second sequence-number wrap on the extended highest "
+                                    "sequence number jumps back by 65536 and the cumulative loss goes hugely negative", construct="cycle counter assigned, not accumulated"))
+                seen.append((n_, True))
     if not seen:
         raise AnalysisError("self.cycles update not found in StreamStatistics.add")
     for node, guarded in seen:
@@ -355,10 +364,12 @@ def run(rep: Report, prog: Program, tier: str) -> None:
         elif kind == "late copy of the newest packet":
             base = [(seq0 + i, 160 * i, 0.02 * i) for i in range(24)]
             pk = base[:11] + [(seq0 + 10, 1600, 0.213)] + base[11:20] + [(seq0 + 19, 3040, 0.391), (seq0 + 19, 3040, 0.395)] + base[20:]
+        elif kind == "two sequence wraps in large strides":
+            pk = [(seq0 + 30000 * i, 160 * i, 0.02 * i) for i in range(7)]
         elif kind == "several frames per timestamp":
             pk = [(seq0 + i, 3000 * (i // 3), 0.011 * i) for i in range(30)]
         return [(s % 65536, (t + ts0) % (1 << 32), n) for s, t, n in pk]
-    for kind, seq0 in itertools.product(("in order, steady", "in order, jittered arrival", "losses", "duplicates and late copies", "late copy of the newest packet", "several frames per timestamp"), (7, 65500)):
+    for kind, seq0 in itertools.product(("in order, steady", "in order, jittered arrival", "losses", "duplicates and late copies", "late copy of the newest packet", "two sequence wraps in large strides", "several frames per timestamp"), (7, 65500)):
         arr = make_seq(kind, seq0, 0 if seq0 == 7 else (1 << 32) - 1000)
         # the reference works on unwrapped numbers
         unwrapped = []
